@@ -41,7 +41,11 @@ impl ItemResult {
     pub fn outcome(&mut self, s: String) { if self.outcomes.len() < 5000 { self.outcomes.insert(s); } }
     pub fn sample(&mut self, v: Value) { if self.samples.len() < 3 { self.samples.push(v); } }
     pub fn violate(&mut self, key: impl Into<String>, desc: impl Into<String>, replay: Value) {
-        if self.violations.len() < 200 { self.violations.push(Violation { key: key.into(), desc: desc.into(), replay }); }
+        // bounded PER violation class (key), never globally: a class with thousands of hits (a known finding met on every error path)
+        // must not crowd out a different class
+        let key: String = key.into();
+        let same = self.violations.iter().filter(|v| v.key == key).count();
+        if same < 4 && self.violations.len() < 20_000 { self.violations.push(Violation { key, desc: desc.into(), replay }); }
         self.count("violations_total", 1);
     }
     pub fn merge(&mut self, o: ItemResult) {
@@ -51,7 +55,7 @@ impl ItemResult {
         self.transitions += o.transitions;
         self.traces_validated += o.traces_validated;
         for s in o.outcomes { self.outcome(s); }
-        for v in o.violations { if self.violations.len() < 2000 { self.violations.push(v); } }
+        for v in o.violations { let same = self.violations.iter().filter(|x| x.key == v.key).count(); if same < 8 && self.violations.len() < 50_000 { self.violations.push(v); } }
         for s in o.samples { if self.samples.len() < 8 { self.samples.push(s); } }
         for (k, n) in o.counters { *self.counters.entry(k).or_insert(0) += n; }
         for (k, n) in o.maxima { let e = self.maxima.entry(k).or_insert(0); if n > *e { *e = n; } }
